@@ -2,7 +2,7 @@
 import json
 import os
 
-from vlib import cbor, gen, pipeline, runner, tablemodel
+from vlib import cbor, cdns_schema, gen, pipeline, runner, tablemodel
 from vlib.findings import Violation
 from .common import ExportRun
 
@@ -42,7 +42,9 @@ def make_cases(tier, seed, files):
         fate = FATES[(i // 4) % 4]
         variant = ['block', 'block', 'readblock', 'fromfile'][(i // 16) % 4] if files else ['block', 'readblock'][(i // 16) % 2]
         ops, pairs, solo = [], [], []          # pairs: (index of op on the copy, index of op on the fresh twin)
-        bp = gen.gen_bp(r, tps=1000, maxi=10000, hints=(gen.ALL_QRH, gen.ALL_SIGH, 3, 3))
+        # parameters that differ from the defaults in members used afterwards (tick rate, block size, hints)
+        tps = r.choice([1, 1000, 10 ** 6, 10 ** 9])
+        bp = gen.gen_bp(r, tps=tps, maxi=r.choice([1, 3, 10000]), hints=(gen.ALL_QRH, gen.ALL_SIGH, 3, 3) if i % 3 else None)
         bp.pop('cp', None)
         if variant == 'fromfile':
             f, nb = r.choice(files)
@@ -53,19 +55,19 @@ def make_cases(tier, seed, files):
         else:
             rd = variant == 'readblock'
             ops.append({'o': 'new', 'b': 0, 'bp': bp, 'read': rd})
-            lineage = content_ops(r, vg, P, 0, r.choice([0, 3, 15, 60]))
+            lineage = content_ops(r, vg, P, 0, r.choice([0, 3, 15, 60]), tps)
             ops += lineage
             ops.append({'o': 'new', 'b': 2, 'bp': bp, 'read': rd})
             ops += retarget(lineage, 2)
         if how in ('cassign', 'massign') and r.random() < 0.6:
             # assignment over a destination that already holds other content
             ops.append({'o': 'new', 'b': 1, 'bp': bp, 'read': variant != 'block'})
-            ops += content_ops(r, vg, P, 1, r.choice([1, 5, 20]))
+            ops += content_ops(r, vg, P, 1, r.choice([1, 5, 20]), tps if variant != 'fromfile' else 1000)
         src_tables_before = len(ops)
         ops.append({'o': 'tables', 'b': 0})
         ops.append({'o': 'copy', 'how': how, 'src': 0, 'dst': 1})
         if fate == 'mutate':
-            ops += content_ops(r, vg, P, 0, r.choice([1, 5, 30]))
+            ops += content_ops(r, vg, P, 0, r.choice([1, 5, 30]), tps if variant != 'fromfile' else 1000)
         elif fate == 'clear':
             ops.append({'o': 'clear', 'b': 0})
         elif fate == 'destroy':
@@ -84,7 +86,7 @@ def make_cases(tier, seed, files):
             # generic reads: only blocks filled by read() are specified to be readable that way (a CdnsBlockRead filled
             # through add_* has no defined read cursor), so the comparison is made for reader-returned blocks only
             both({'o': 'dump_inplace'})
-        for op in content_ops(r, vg, P, 1, r.choice([2, 10, 40])):
+        for op in content_ops(r, vg, P, 1, r.choice([2, 10, 40]), tps if variant != 'fromfile' else 1000):
             both(op)
         # re-add values the source held (existing values must be found, not duplicated)
         for op in lineage[:10]:
@@ -149,6 +151,19 @@ def run(tier, seed):
                         with open(p, 'wb') as f:
                             f.write(o.data)
                         files.append((p, len(pc['docs'][o.id].blocks)))
+                        # the same file as a producer that does not de-duplicate its tables would write it: the last entry of
+                        # some tables once more (indices stay valid)
+                        doc = cdns_schema.parse(o.data)
+                        for n in cbor.walk(doc.root):
+                            if n.major == cbor.MAP and n.ann == 'BlockTables':
+                                for k, v in n.value:
+                                    if k.value in (0, 1, 2, 5, 7) and v.major == cbor.ARRAY and v.value:
+                                        v.value.append(v.value[-1])
+                                        v.width = None
+                        p2 = os.path.join(wd_files, pc['case']['id'] + '_dup.cdns')
+                        with open(p2, 'wb') as f:
+                            f.write(cbor.encode(doc.root))
+                        files.append((p2, len(pc['docs'][o.id].blocks)))
     finally:
         er.close()
     try:
